@@ -157,6 +157,9 @@ def wrap(clause_text: str, style: int) -> str:
         return f"# W {clause_text}"
     if style == 1:
         return f"# S note W {clause_text} O priority G file"
+    if style == 3:
+        # hand-written with irregular blanks around the clause keywords
+        return f"# S note  W  {clause_text}  G file  O alpha "
     return f"# W {clause_text} G file O alpha"
 
 
@@ -200,7 +203,7 @@ def _run_case(ctx, case) -> F.Outcome:
     for k, name in enumerate(NAMES):
         clause = clause_options(k, False)[idxs[k]] if not ctx.quick or k != 2 else clause_options(k, True)[idxs[k]]
         env[name] = clause
-        (zoq / f"{name}.zoq").write_text(wrap(render_with_refs(clause), (style + k) % 3) + "\n# extra header line\n")
+        (zoq / f"{name}.zoq").write_text(wrap(render_with_refs(clause), (style + k) % 4) + "\n# extra header line\n")
     for dname, dtext in DECOYS.items():
         # saved pages whose names are prefixes of a referenced name; never referenced themselves
         (zoq / f"{dname}.zoq").write_text(dtext + "\n")
@@ -328,7 +331,7 @@ def _cases(ctx):
     nc = len(clause_options(2, ctx.quick))
     nq = len(referencing_queries())
     for ia, ib, ic in it.product(range(na), range(nb), range(nc)):
-        styles = (0, 1, 2) if not ctx.quick else ((ia + ib + ic) % 3,)
+        styles = (0, 1, 2, 3) if not ctx.quick else ((ia + ib + ic) % 4,)
         for style in styles:
             for qi in range(nq):
                 cases.append(["ref", ia, ib, ic, style, qi])
@@ -353,7 +356,7 @@ def _sample(ctx, case):
     saved = {}
     for k, name in enumerate(NAMES):
         opts = clause_options(k, ctx.quick if k == 2 else False)
-        saved[f"zoq/{name}.zoq"] = wrap(render_with_refs(opts[idxs[k]]), (style + k) % 3)
+        saved[f"zoq/{name}.zoq"] = wrap(render_with_refs(opts[idxs[k]]), (style + k) % 4)
     return {"saved": saved, "query": referencing_queries()[qi][0]}
 
 
